@@ -8,6 +8,7 @@ import (
 	"fmt"
 	"io"
 	"os"
+	"path/filepath"
 	"sync"
 	"syscall"
 	"time"
@@ -266,7 +267,7 @@ func genC18(t *rapid.T, tier string) C18Case {
 		c.Repoint = rapid.IntRange(0, 3).Draw(t, "repoint") == 0
 	}
 	if c.Backend == "file" {
-		kinds = append(kinds, "filefault", "filefault")
+		kinds = append(kinds, "filefault", "filefault", "fileaway")
 	}
 	no := rapid.IntRange(1, 14).Draw(t, "nops")
 	for i := 0; i < no; i++ {
@@ -285,6 +286,7 @@ func runC18(c C18Case, o *run.Obs) error {
 	ctx := context.Background()
 	var p mast.Persist
 	var fake *fakeS3
+	fileDir := ""
 	desc := fmt.Sprintf("[backend=%s bucket=%q prefix=%q]", c.Backend, c.Bucket, c.Prefix)
 	switch c.Backend {
 	case "memory":
@@ -300,6 +302,7 @@ func runC18(c C18Case, o *run.Obs) error {
 		}
 		defer os.RemoveAll(dir)
 		p = file.NewPersistForPath(dir)
+		fileDir = dir
 	case "s3fake":
 		fake = &fakeS3{objects: map[string][]byte{}}
 		sp := s3persist.NewPersist(fake, "https://s3.example", c.Bucket, c.Prefix)
@@ -505,6 +508,27 @@ func runC18(c C18Case, o *run.Obs) error {
 				return fmt.Errorf("%s %s: Load(%q) started after a successful Store of that name (while an older Load of it was still pending) returned %d bytes, err=%v; %d bytes were written", desc, when, name, len(second.b), second.err, len(payload))
 			}
 			o.Label("load-overlapping-a-write")
+		case "fileaway":
+			// the node file of a written name is out of reach for a moment (moved away and back, as on a remounted or
+			// briefly unavailable volume): a Load meanwhile may fail, but once the file is back the name loads again
+			// through the same store object
+			if _, ok := model[name]; !ok || fileDir == "" {
+				continue
+			}
+			path := filepath.Join(fileDir, name)
+			if err := os.Rename(path, path+".away"); err != nil {
+				continue // the backend keeps this node elsewhere: nothing to take away
+			}
+			_, lerr := p.Load(ctx, name)
+			if err := os.Rename(path+".away", path); err != nil {
+				return fmt.Errorf("harness: cannot put the node file back: %w", err)
+			}
+			if lerr == nil {
+				o.Label("fileaway:load-succeeded-meanwhile")
+			}
+			if err := load(when+" (after the node file was out of reach for one Load and is back)", name); err != nil {
+				return err
+			}
 		case "putfail":
 			injected := putErrKinds[op.E%len(putErrKinds)]
 			fake.mu.Lock()
